@@ -9,6 +9,7 @@
 #include <tuple>
 #include <vector>
 #include <vata/explicit_finite_aut.hh>
+#include "runner.hh"
 #include "explicit_finite_aut_core.hh"
 #include "loadable_aut.hh"
 
@@ -73,7 +74,7 @@ inline NFA readBackFA(const VATA::ExplicitFiniteAut& x) {   // through the core 
   NFA r; const VATA::ExplicitFiniteAutCore& c = *x.core_;
   for (auto q : c.startStates_) r.starts.insert(q); for (auto q : c.finalStates_) r.finals.insert(q);
   for (auto& sc : *c.transitions_) if (sc.second) for (auto& sy : *sc.second) for (auto t : sy.second) r.edges.insert(std::make_tuple(sc.first, (int)sy.first, t));
-  return r;
+  verif::obs(r.str()); return r;
 }
 
 // FA(n, L, <=k): edges from n x L x n, any start set, any final set; ordered by #edges
